@@ -246,7 +246,18 @@ func runCheck(o CheckOpts) int {
 		if r.Err != nil {
 			violations++
 			rp := writeReplay(o, r.Name+"/subset", r.Err.Error(), nil)
-			lines = append(lines, fmt.Sprintf("VIOLATION property=%s replay=%s obligation=%s/subset reason=%q no-failing-input-found", o.Prop, rp, r.Name, r.Err.Error()))
+			l := fmt.Sprintf("VIOLATION property=%s replay=%s obligation=%s/subset reason=%q", o.Prop, rp, r.Name, r.Err.Error())
+			// the contract no longer fits the function: run the function's scenario
+			// adapter (if any) to see whether the real code misbehaves
+			confirmed := false
+			if adapterFor(o.Verif, r.Name) != "" {
+				pseudo := &Obligation{Name: r.Name + "/subset", Func: r.Name, Kind: "subset", Label: "subset"}
+				confirmed = runAdapter(o, pseudo, map[string]string{}, rp)
+			}
+			if !confirmed {
+				l += " no-failing-input-found"
+			}
+			lines = append(lines, l)
 			continue
 		}
 	}
